@@ -580,6 +580,7 @@ func (p *forRangeStmt) RangeAssignThen(cb *CodeBuilder, pos token.Pos) {
 }
 
 func (p *forRangeStmt) getKeyValTypes(cb *CodeBuilder, typ types.Type) []types.Type {
+	orig := typ
 retry:
 	switch t := typ.(type) {
 	case *types.Slice:
@@ -607,9 +608,9 @@ retry:
 		// for i := range n { ... } iterates from 0 to n-1
 		if (t.Info() & types.IsInteger) != 0 {
 			if (t.Info() & types.IsUntyped) != 0 {
-				return []types.Type{types.Typ[types.Int], nil}
+				return []types.Type{types.Default(t), nil}
 			}
-			return []types.Type{t, nil}
+			return []types.Type{orig, nil} // a named integer type keeps its name
 		}
 	case *types.Signature:
 		// Go 1.23 range over function types:
